@@ -122,6 +122,15 @@ def cases(tier, seed):
             "settings": sd,
             "seed": rnd.randrange(10**6),
         }
+    # the iterative regime proper: enough points that conjugate gradients stops on its tolerance (not on the n-iteration
+    # exactness of small systems): a tightened eval_cg_tolerance must really be honoured
+    for j in range(8 if tier == "quick" else 120):
+        yield {
+            "kernel": rnd.choice([KERNELS[0], KERNELS[2], KERNELS[3], KERNELS[4], KERNELS[10]]), "mean": rnd.choice(MEANS), "lik": rnd.choice(["gauss", "fixed"]), "n": rnd.choice([120, 200]), "d": 2, "ns": 4,
+            "pbatch": [], "xbatch": [], "tbatch": [], "large_cg": True,
+            "settings": {"lazily_evaluate_kernels": rnd.random() < 0.7, "max_eager_kernel_size": "below", "max_cholesky_size": 0, "fast_pred_var": False, "detach_test_caches": rnd.random() < 0.5},
+            "seed": rnd.randrange(10**6),
+        }
     # directed hostile geometry: duplicated training rows, test point equal to a training point
     for j in range(12 if tier == "quick" else 200):
         yield {
@@ -210,6 +219,8 @@ def _post_call(a, k, out, tok):
     if not iterative and _has_matern05(case["kernel"]):
         # exp(-d) is not smooth at d=0: sqrt of the 1e-16 rounding noise of a squared distance moves K(x,x) by ~1e-8
         tol = (1e-7, 1e-7)
+    if case.get("large_cg"):
+        tol = (2e-4, 2e-4)  # observed floor of converged CG on these systems: 1e-5; a solve stopped at 1e-3 is off by >1e-3
     ctol = tol
     cls = ("cg" if iterative else "chol") + ("+love" if sd.get("fast_pred_var") else "") + ("+lazy" if sd.get("lazily_evaluate_kernels", True) else "+eager")
     got_mean = out.mean.reshape(*out.mean.shape[: len(out.mean.shape) - (2 if mt else 1)], -1)
